@@ -97,6 +97,38 @@ Theorem C16_oracle_cli : forall idx0 cs newblobs final, check_C16 (CCli idx0 cs 
          (nodup_n (idx0 ++ cs ++ map fst final)).
 Proof. exact check_C16_cli. Qed.
 
+(* Refinement: MasterIndex as a list of in-memory indexes (open / final without id = upload in flight /
+   final saved), storePack into the first open one, finalize, upload finished, MergeFinalIndexes.
+   The abstract index multiset is the content of ALL of them (invariant Rinv), so: *)
+Theorem C16_index_transitions_preserve_known : forall sm e h,
+  (exists k, e = RFinalize k) \/ (exists k, e = RSaved k) \/ e = RMerge ->
+  rknown (rstep sm e) h = rknown sm h.
+Proof. exact index_transitions_preserve_known. Qed.
+
+Theorem C16_refined_projects : forall evs sm, fst (rrun sm evs) = run (fst sm) (abs_events evs).
+Proof. exact rrun_fst. Qed.
+
+Theorem C16_refined_accepted_always_known : forall idx0 evs h, no_clear (abs_events evs) ->
+  let sm := rrun (rinit idx0) evs in
+  ((1 <= U h (res (fst sm)))%nat \/ (1 <= cnt h (packer (fst sm)))%nat \/ (1 <= firsts h (log (fst sm)))%nat) ->
+  rknown sm h = true.
+Proof. exact refined_accepted_always_known. Qed.
+
+Theorem C16_refined_store_once : forall idx0 evs h, no_clear (abs_events evs) ->
+  (firsts h (log (fst (rrun (rinit idx0) evs))) <= 1)%nat.
+Proof. exact refined_store_once. Qed.
+
+(* dropping a finalized index whose upload is still in flight during a merge is outside the model *)
+Theorem C16_merge_must_keep_unsaved :
+  let m := [(IFinalSaved, []); (IFinalNoId, [7%N]); (IOpen, [8%N])] in
+  mem 7%N (flat (merge_final m)) = true /\ mem 7%N (flat (merge_final_dropping_unsaved m)) = false.
+Proof. exact merge_must_keep_unsaved. Qed.
+
+Print Assumptions C16_index_transitions_preserve_known.
+Print Assumptions C16_refined_projects.
+Print Assumptions C16_refined_accepted_always_known.
+Print Assumptions C16_refined_store_once.
+Print Assumptions C16_merge_must_keep_unsaved.
 Print Assumptions C16_backup_entries.
 Print Assumptions C16_oracle_cli.
 Print Assumptions C16_accepted_always_known.
